@@ -98,6 +98,22 @@ class S3LockProviderBase(LockProvider):
         self._etag: Optional[str] = None
         self._state_lock = threading.Lock()
 
+    def _lock_body(self) -> bytes:
+        """Content for one write of the lock object: '<lock_id>:<nonce>'.
+
+        The nonce makes every write distinct. S3 ETags of simple PUTs are the
+        MD5 of the content, so re-writing the bare lock id on renewal left the
+        ETag unchanged - and a contender's takeover 'PUT If-Match: <etag seen at
+        its HEAD>' still succeeded after the holder had just renewed, stealing
+        a live lock. With a nonce a renewal always changes the ETag.
+        """
+        return f"{self.lock_id}:{uuid.uuid4().hex}".encode("utf-8")
+
+    @staticmethod
+    def _owner_of(content: str) -> str:
+        """Lock id stored in a lock object's content (with or without nonce)."""
+        return content.split(":", 1)[0]
+
     def acquire(self) -> bool:
         start_time = time.time()
         while True:
@@ -144,7 +160,7 @@ class S3LockProviderBase(LockProvider):
             try:
                 resp = self.s3.get_object(Bucket=self.bucket, Key=self.key)
                 content = resp['Body'].read().decode('utf-8')
-                if content != self.lock_id:
+                if self._owner_of(content) != self.lock_id:
                     self.is_locked = False
                     return False
                 return True
@@ -206,7 +222,7 @@ class S3LockProviderBase(LockProvider):
             resp = self.s3.get_object(Bucket=self.bucket, Key=self.key)
             content = resp['Body'].read().decode('utf-8')
 
-            if content == self.lock_id:
+            if self._owner_of(content) == self.lock_id:
                 self.s3.delete_object(Bucket=self.bucket, Key=self.key)
             else:
                 logger.warning(f"Skipping release of S3 lock at {self.key}: Lock owner changed (expected {self.lock_id}, got {content})")
@@ -248,7 +264,7 @@ class S3LockProvider(S3LockProviderBase):
             resp = self.s3.put_object(
                 Bucket=self.bucket,
                 Key=self.key,
-                Body=self.lock_id.encode('utf-8'),
+                Body=self._lock_body(),
                 IfNoneMatch='*'
             )
             with self._state_lock:
@@ -292,7 +308,7 @@ class S3LockProvider(S3LockProviderBase):
             put_resp = self.s3.put_object(
                 Bucket=self.bucket,
                 Key=self.key,
-                Body=self.lock_id.encode('utf-8'),
+                Body=self._lock_body(),
                 IfMatch=etag,
             )
             with self._state_lock:
@@ -319,7 +335,7 @@ class S3LockProvider(S3LockProviderBase):
             resp = self.s3.put_object(
                 Bucket=self.bucket,
                 Key=self.key,
-                Body=self.lock_id.encode('utf-8'),
+                Body=self._lock_body(),
                 IfMatch=etag,
             )
             with self._state_lock:
@@ -394,7 +410,7 @@ class S3PollingLockProvider(S3LockProviderBase):
         self.s3.put_object(
             Bucket=self.bucket,
             Key=self.key,
-            Body=self.lock_id.encode('utf-8')
+            Body=self._lock_body()
         )
 
         # Step 3: Wait briefly to allow for race condition detection
@@ -405,7 +421,7 @@ class S3PollingLockProvider(S3LockProviderBase):
             resp = self.s3.get_object(Bucket=self.bucket, Key=self.key)
             content = resp['Body'].read().decode('utf-8')
 
-            if content == self.lock_id:
+            if self._owner_of(content) == self.lock_id:
                 self._lease_deadline = write_started + self.lease_seconds
                 return True
             else:
@@ -442,7 +458,7 @@ class S3PollingLockProvider(S3LockProviderBase):
             resp = self.s3.get_object(Bucket=self.bucket, Key=self.key)
             content = resp['Body'].read().decode('utf-8')
 
-            if content != self.lock_id:
+            if self._owner_of(content) != self.lock_id:
                 logger.warning(f"Lost S3 lock at {self.key} (content mismatch). Stopping heartbeat.")
                 self.is_locked = False
                 return
@@ -457,7 +473,7 @@ class S3PollingLockProvider(S3LockProviderBase):
             self.s3.put_object(
                 Bucket=self.bucket,
                 Key=self.key,
-                Body=self.lock_id.encode('utf-8')
+                Body=self._lock_body()
             )
             self._lease_deadline = write_started + self.lease_seconds
             logger.debug(f"Renewed S3 lock at {self.key}")
